@@ -98,6 +98,21 @@ Theorem C01_tts_fh_absolute_sound : forall lo nn f a b, f <> [] -> sorted_lt f -
 Proof. exact tts_fh_absolute_sound. Qed.
 Print Assumptions C01_tts_fh_absolute_sound.
 
+(* ... and about the regenerated _split_by_fh itself (X = None), series labelled lo .. lo+n-1 *)
+Theorem C01_code_tts_fh_relative : forall lo nn f, valid_fh f -> zlast f < nn ->
+  exists a b, gen_split_by_fh (zrange lo (lo + nn) 1) true nn f tt = Ok (a, b) /\
+    a = zrange lo (lo + nn - zlast f) 1 /\ b = map (fun h => lo + nn - zlast f - 1 + h) f /\
+    (forall x y, In x a -> In y b -> x < y) /\ (forall y, In y b -> lo <= y < lo + nn).
+Proof. exact code_tts_fh_relative. Qed.
+Print Assumptions C01_code_tts_fh_relative.
+
+Theorem C01_code_tts_fh_absolute : forall lo nn f,
+  f <> [] -> sorted_lt f -> lo < zfirst f -> zlast f < lo + nn ->
+  exists a, gen_split_by_fh (zrange lo (lo + nn) 1) false nn f tt = Ok (a, f) /\
+    (forall x, In x a <-> lo <= x < zfirst f).
+Proof. exact code_tts_fh_absolute. Qed.
+Print Assumptions C01_code_tts_fh_absolute.
+
 (* hypotheses are satisfiable by a non-trivial configuration *)
 Example C01_nonvacuous : valid ex_cfg /\ feasible ex_cfg = true /\
   window_split Sliding ex_cfg = Ok [([0;1;2;3;4], [5;7]); ([4;5;6], [7;9]); ([6;7;8], [9;11])].
